@@ -366,10 +366,10 @@ Proof.
   unfold pair_aff. rewrite !in_app_iff. tauto.
 Qed.
 
-Lemma do_mod_lc : forall fuel s cand memch dynch s1,
-  LC s -> do_mod fuel s cand memch dynch = Some s1 -> LC s1.
+Lemma do_mod_lc : forall strict fuel s cand memch dynch s1,
+  LC s -> do_mod strict fuel s cand memch dynch = Some s1 -> LC s1.
 Proof.
-  intros fuel s cand memch dynch s1 H E. unfold do_mod in E.
+  intros strict fuel s cand memch dynch s1 H E. unfold do_mod in E.
   match type of E with (if ?c then _ else _) = _ => destruct c end.
   - eapply mod_inner_lc; eassumption.
   - injection E as <-. exact H.
@@ -582,10 +582,10 @@ Proof.
   rewrite insert_ent_in, IH. cbn. intuition.
 Qed.
 
-Lemma do_create_lc : forall fuel s l dynch s1,
-  LC s -> do_create fuel s l dynch = Some s1 -> LC s1.
+Lemma do_create_lc : forall strict fuel s l dynch s1,
+  LC s -> do_create strict fuel s l dynch = Some s1 -> LC s1.
 Proof.
-  intros fuel s l dynch s1 H E. unfold do_create in E.
+  intros strict fuel s l dynch s1 H E. unfold do_create in E.
   set (s0 := fold_right (fun n acc => insert_ent (new_ent n) acc) s l) in *.
   match type of E with (if ?c then _ else _) = _ => destruct c end; [|injection E as <-; exact H].
   eapply apply_lc; [|exact E]. clear E.
@@ -672,7 +672,7 @@ Qed.
 
 Lemma step_fuel_dynwf : forall fuel s o s1, DynWF s -> step_fuel fuel s o = Some s1 -> DynWF s1.
 Proof.
-  intros fuel s o s1 H E. destruct o as [l dynch|cand memch dynch|ids|id dynch]; cbn [step_fuel] in E.
+  intros fuel s o s1 H E. destruct o as [strict l dynch|strict cand memch dynch|ids|id dynch]; cbn [step_fuel] in E.
   - unfold do_create in E.
     match type of E with (if ?c then _ else _) = _ => destruct c end; [|injection E as <-; exact H].
     eapply apply_dynwf; [|exact E]. apply dynwf_map; [intros e; apply dk_upd_dyn|].
@@ -694,7 +694,7 @@ Qed.
 
 Lemma step_fuel_lc : forall fuel s o s1, DynWF s -> LC s -> step_fuel fuel s o = Some s1 -> LC s1.
 Proof.
-  intros fuel s o s1 WF H E. destruct o as [l dynch|cand memch dynch|ids|id dynch]; cbn [step_fuel] in E.
+  intros fuel s o s1 WF H E. destruct o as [strict l dynch|strict cand memch dynch|ids|id dynch]; cbn [step_fuel] in E.
   - eapply do_create_lc; eassumption.
   - eapply do_mod_lc; eassumption.
   - eapply do_delete_lc; eassumption.
@@ -780,7 +780,7 @@ Definition stale_pre : state :=
   [mkent 0 true false true [2] [] [0; 1; 2; 3] [1; 3] []; mkent 1 true false true [0] [] [0; 1; 2; 3] [2] [];
    mkent 2 true false true [1] [] [0; 1; 2; 3] [0] []; mkent 3 true false true [0] [] [] [] []].
 (* G.member := [] *)
-Definition stale_op : op := OMod [3] [(3, [])] [].
+Definition stale_op : op := OMod false [3] [(3, [])] [].
 Definition stale_post : state :=
   [mkent 0 true false true [2] [] [0; 1; 2; 3] [1] []; mkent 1 true false true [0] [] [0; 1; 2; 3] [2] [];
    mkent 2 true false true [1] [] [0; 1; 2; 3] [0] []; mkent 3 true false true [] [] [] [] []].
@@ -806,7 +806,7 @@ Definition osc_pre : state :=
   [mkent 0 true false true [] [] [2] [2] []; mkent 1 true false true [] [] [3] [3] [];
    mkent 2 true false true [0] [] [] [] []; mkent 3 true false true [1] [] [] [] []].
 (* one batch: A.member=[B], B.member=[A], G1.member=[], G2.member=[] *)
-Definition osc_op : op := OMod [0; 1; 2; 3] [(0, [1]); (1, [0]); (2, []); (3, [])] [].
+Definition osc_op : op := OMod false [0; 1; 2; 3] [(0, [1]); (1, [0]); (2, []); (3, [])] [].
 
 Definition osc_f := fun e => upd_dyn [] (upd_mem [(0, [1]); (1, [0]); (2, []); (3, [])] e).
 Definition osc_sA := map osc_f osc_pre.
